@@ -117,7 +117,8 @@ impl HG {
 }
 
 const PROBE_VARS: &[&str] = &[
-    "VE1", "VE2", "VS1", "vs_lower", "VA1", "VH1", "VI1", INHERITED, "VS_CFG", "UIDX", "PPID2", "x1", "_under", "BASH_MINE", "LINENO_COPY", "SCRUT_TESTX",
+    "VE1", "VE2", "VS1", "vs_lower", "VA1", "VH1", "VI1", INHERITED, "VS_CFG", "UIDX", "PPID2", "x1", "_under", "BASH_MINE", "LINENO_COPY", "SCRUT_TESTX", "VL1", "VU1",
+    "VEMPTY",
 ];
 
 fn probe_all() -> String {
@@ -150,7 +151,7 @@ fn gen_history(seed: u64, idx: usize, steer_around_known: bool) -> History {
     let mut cfg_touched = false;
     for k in 0..n {
         let mut env: BTreeMap<String, String> = BTreeMap::new();
-        let (tag, code): (String, String) = match g.below(40) {
+        let (tag, code): (String, String) = match g.below(47) {
             0 => ("export-define".into(), format!("export VE1={}", g.value())),
             1 => ("export-modify".into(), "export VE1=\"${VE1:-none} more\"".into()),
             2 => ("export-unset".into(), "unset VE1".into()),
@@ -226,6 +227,13 @@ fn gen_history(seed: u64, idx: usize, steer_around_known: bool) -> History {
             34 => ("alias-of-alias".into(), "alias a1='echo inner'; alias a2='a1 outer'".into()),
             35 => ("dirstack-deep".into(), "pushd 'd 1' >/dev/null 2>&1; pushd ../d2 >/dev/null 2>&1; pushd inner >/dev/null 2>&1".into()),
             36 => ("func-constructs".into(), "f1() { local -a arr=(1 \"two words\"); case \"$1\" in a|b) echo ab;; *) echo \"other ${arr[1]}\";; esac; cat <<EOT\n  heredoc $1 line\nEOT\n}".into()),
+            40 => ("export-n".into(), "export -n VE1 2>/dev/null; export -n VE2 2>/dev/null".into()),
+            41 => ("attr-lower-upper".into(), "declare -l VL1=MiXed; declare -u VU1=MiXed".into()),
+            42 => ("attr-modify".into(), "VL1=SHOUT-${VL1:-}; VU1=whisper".into()),
+            43 => ("export-empty".into(), "export VEMPTY=".into()),
+            44 => ("cd-dash".into(), "cd - >/dev/null 2>&1".into()),
+            45 => ("cd-quote-dir".into(), format!("cd {} 2>/dev/null", g.pick(&["\"$VS_BASE/d'q\"", "\"$VS_BASE/d 1\"", "\"$VS_BASE/d2/in ner\""]))),
+            46 => ("pushd-quote-dir".into(), "pushd \"$VS_BASE/d'q\" >/dev/null 2>&1; pushd \"$VS_BASE/d2/in ner\" >/dev/null 2>&1".into()),
             37 => (
                 "func-needs-extglob".into(),
                 "shopt -s extglob\nfx() { case \"$1\" in @(yes|y)) echo Y;; !(no|n)) echo other;; esac; }".into(),
@@ -274,6 +282,13 @@ fn systematic_histories() -> Vec<History> {
             "shopt -u extglob",
             "fx y; cd d2",
         ),
+        ("export-n", "export VE1=one VE2=two", "export -n VE1", "export VE1; export -n VE2"),
+        ("attr-case", "declare -l VL1=MiXed; declare -u VU1=MiXed", "VL1=AGAIN; VU1=again", "unset VL1; declare +u VU1; VU1=Plain"),
+        ("export-empty", "export VEMPTY=", "VEMPTY=filled", "export VEMPTY="),
+        ("cd-dash", "cd 'd 1'; cd ../d2", "cd -", "cd - ; cd \"$VS_BASE/d'q\""),
+        ("dirstack-quotes", "pushd \"$VS_BASE/d'q\" >/dev/null", "pushd \"$VS_BASE/d2/in ner\" >/dev/null; pushd \"$VS_BASE/d 1\" >/dev/null", "popd >/dev/null"),
+        ("dirstack-two", "pushd d2 >/dev/null", "true", "popd >/dev/null"),
+        ("nounset-with-unset", "set -o nounset; VS1=x", "unset VS1; VA1=(a b)", "set +o nounset"),
         ("shopt-then-var", "shopt -s nullglob dotglob; VS1=one", "shopt -u nullglob; VS1=two; alias a1='echo x'", "shopt -u dotglob"),
     ];
     let mut out = vec![];
@@ -370,6 +385,8 @@ fn layout() -> std::io::Result<Layout> {
     let tmp = root.path().join("tmp");
     std::fs::create_dir_all(work.join("d 1"))?;
     std::fs::create_dir_all(work.join("d2/inner"))?;
+    std::fs::create_dir_all(work.join("d2/in ner"))?;
+    std::fs::create_dir_all(work.join("d'q"))?;
     std::fs::create_dir_all(&tmp)?;
     Ok(Layout { root, work, tmp })
 }
